@@ -38,6 +38,9 @@ ALIASES = [
     ("$[?@.a==nil]", "$[?@.a==null]"), ("$[?nil==@.a]", "$[?null==@.a]"), ("$[?@.a in [True,None]]", "$[?@.a in [true,null]]"), ("$[?count(@.*) == 1 and not(match(@.s, 'a'))]", "$[?count(@.*) == 1 && !(match(@.s, 'a'))]"),
 ]
 SEMANTIC = [  # (query, equivalent query)
+    # the fake root and the root across a filter boundary: `^[0]` is the document, and inside the filter of a `^` query `$` still is
+    ("$.xs[?@.k == ^[0].k]", "$.xs[?@.k == $.k]"), ("$.a[?@ > ^[0].k]", "$.a[?@ > $.k]"), ("$.a[?@ > value(^[0].k)]", "$.a[?@ > value($.k)]"), ("^[?@.k == $.k]", "^[?@.k == ^[0].k]"),
+    ("^[?@.a == $.a]", "^[?@.a == @.a]"), ("$[?^[?@.k == 1]]", "$[?$.k == 1]"), ("$.xs[?^[0].list[?@ == 1]]", "$.xs[?$.list[?@ == 1]]"), ("^[?$.k == 1].a", "^[?@.k == 1].a"),
     ("$[?@.a <> 1]", "$[?@.a != 1]"), ("$[?@.a <> @.b]", "$[?@.a != @.b]"), ("$[?@.a <> undefined]", "$[?@.a != undefined]"), ("$..[?@ <> 'a']", "$..[?@ != 'a']"),
     ("$[?@.a == undefined]", "$[?!@.a]"), ("$[?@.a != undefined]", "$[?@.a]"), ("$[?undefined == @.a]", "$[?!@.a]"), ("$[?@.a.b == undefined]", "$[?!@.a.b]"),
     ("$[?@.a in $.list]", "$[?$.list contains @.a]"), ("$[?'a' in @]", "$[?@ contains 'a']"), ("$[?@.s in ['ab', 'x']]", "$[?['ab', 'x'] contains @.s]"),
